@@ -89,6 +89,13 @@ func genFields(c *Ctx) {
 			c.Emit(val.L(val.N(3), val.N(0), val.B(nil)))
 			c.Emit(val.L(val.N(3), val.N(3), val.B(nil)))
 		}
+		// the encoding side: the value NewID makes of t, through MarshalText/UnmarshalText, Value/Scan, MarshalJSON/UnmarshalJSON
+		{
+			var s string
+			err := json.Unmarshal(enc, &s)
+			c.Emit(val.L(val.N(5), val.B(b), val.B(enc), val.Opt(val.S(s), err == nil)))
+			c.Count("encoding-side-round-trips")
+		}
 		// header: the value first, alone or followed by another
 		c.Emit(val.L(val.N(4), val.L(val.B(b))))
 		if c.R.Intn(4) == 0 {
@@ -165,6 +172,60 @@ func execFieldsOnce(in val.V) val.V {
 			scribble(b) // database/sql reuses the []byte it hands to Scan
 		}
 		return encField(ty.IsSet(), ty.String(), err != nil)
+	case 5:
+		id, err := sse.NewID(in.At(1).Str())
+		out := []val.V{encField(id.IsSet(), id.String(), err != nil)}
+		mt, mterr := id.MarshalText()
+		if mterr == nil {
+			out = append(out, val.L(val.N(1), val.B(append([]byte(nil), mt...))))
+			back := sse.ID("previous")
+			buf := append([]byte(nil), mt...)
+			e := back.UnmarshalText(buf)
+			scribble(buf)
+			scribble(mt) // the caller owns what MarshalText returned: the value must not change with it
+			out = append(out, encField(back.IsSet(), back.String(), e != nil))
+		} else {
+			out = append(out, val.L(val.N(0), val.B(nil)), val.L())
+		}
+		dv, _ := id.Value()
+		var asBytes any
+		switch x := dv.(type) {
+		case nil:
+			out = append(out, val.L(val.N(0), val.B(nil)))
+		case string:
+			out = append(out, val.L(val.N(1), val.S(x)))
+			asBytes = []byte(x)
+		default:
+			out = append(out, val.L(val.N(2), val.B(nil)))
+			asBytes = 42
+		}
+		for _, src := range []any{dv, asBytes} {
+			back := sse.Type("previous")
+			e := back.Scan(src)
+			if bs, ok := src.([]byte); ok {
+				scribble(bs)
+			}
+			out = append(out, encField(back.IsSet(), back.String(), e != nil))
+		}
+		doc, _ := id.MarshalJSON()
+		// what the document denotes (not its spelling): null, a string, anything else
+		var denoted string
+		switch derr := json.Unmarshal(doc, &denoted); {
+		case string(doc) == "null":
+			out = append(out, val.L(val.N(0)))
+		case derr == nil:
+			out = append(out, val.L(val.N(1), val.S(denoted)))
+		default:
+			out = append(out, val.L(val.N(2)))
+		}
+		back := sse.ID("previous")
+		e := back.UnmarshalJSON(doc)
+		scribble(doc)
+		out = append(out, encField(back.IsSet(), back.String(), e != nil))
+		if id.String() != in.At(1).Str() && id.IsSet() {
+			return val.S("the value changed while it was encoded")
+		}
+		return val.List(out)
 	case 4:
 		req := httptest.NewRequest(http.MethodGet, "/", nil)
 		if vals := in.At(1).Strs(); len(vals) > 0 {
